@@ -256,6 +256,14 @@ func c23(c *core.Ctx) {
 				if !ok {
 					continue
 				}
+				// a shallow copy of a package-level struct value: its pointer / map / slice fields stay shared
+				if u, isLoad := ssax.Strip(st.Val).(*ssa.UnOp); isLoad && u.Op == token.MUL {
+					if g, isG := u.X.(*ssa.Global); isG && c.P.IsLib(g.Pkg.Pkg) {
+						if shared := refFieldsOf(u.Type()); len(shared) > 0 {
+							bad = "the configuration is a shallow copy of the package-level value " + g.Pkg.Pkg.Name() + "." + g.Name() + ": its fields " + strings.Join(shared, ", ") + " point to storage every other configuration shares"
+						}
+					}
+				}
 				if _, isFA := st.Addr.(*ssa.FieldAddr); !isFA {
 					continue
 				}
@@ -303,4 +311,20 @@ func receiverMutators(all []*ssa.Function) map[*ssa.Function]bool {
 		}
 	}
 	return m
+}
+
+// refFieldsOf lists the fields of struct type t that are pointers, maps or slices (what a shallow copy shares).
+func refFieldsOf(t types.Type) []string {
+	st, ok := t.Underlying().(*types.Struct)
+	if !ok {
+		return nil
+	}
+	var out []string
+	for i := 0; i < st.NumFields(); i++ {
+		switch st.Field(i).Type().Underlying().(type) {
+		case *types.Pointer, *types.Map, *types.Slice:
+			out = append(out, st.Field(i).Name())
+		}
+	}
+	return out
 }
